@@ -5,7 +5,7 @@ import OxyModel.Model.Source
 — the definitions the C19 theorems are about.
 
     cfg var=<esc variable>                                  -> ok | err unsupported | err wrongheader
-    x addr=<esc> host=<esc> [h=<esc name>=<esc value>]...   -> ok tok=<esc token> amt=<n> | err
+    x addr=<esc> host=<esc> [urlhost=<esc>] [h=<esc name>=<esc value>]...   -> ok tok=<esc token> amt=<n> | err
 
 `<esc>`: bytes in `[A-Za-z0-9.:_-]`, `[`, `]` stand for themselves, any other byte is `%XX`; a byte
 `b` is the character with code `b` on the model side. -/
@@ -47,6 +47,10 @@ def parseReq : List String → Req → Bool → Bool → Option Req
       match unesc ((t.drop 5).toString) with
       | some v => parseReq ts { r with host := v } seenA true
       | none => none
+    else if t.startsWith "urlhost=" && r.urlHost.isEmpty then
+      match unesc ((t.drop 8).toString) with
+      | some v => parseReq ts { r with urlHost := v } seenA seenH
+      | none => none
     else if t.startsWith "h=" then
       let body := (t.drop 2).toString.toList
       let name := body.takeWhile (· ≠ '=')
@@ -67,7 +71,7 @@ def step (st : St) (f : List String) : St × String :=
   | some k =>
     match f with
     | "x" :: ts =>
-      match parseReq ts ⟨[], [], []⟩ false false with
+      match parseReq ts ⟨[], [], [], []⟩ false false with
       | none => (st, "bad-op")
       | some r =>
         match extract k r with
